@@ -345,8 +345,8 @@ func c06Main(args []string) {
 // length prefix inside a fixed-size string) set to a large value. The PRNG slice reaches a given (sample, offset,
 // value) with probability ~10^-7 per case. Field-start cases go where decoders take decisions: every own sample of
 // every format is decoded once, the byte at the start of every leaf field (in the top-level buffer, byte-aligned
-// starts, de-duplicated) is overwritten with ff (and, for every other field, 00), and the result is decoded under
-// the sample's own format (every 4th case forced).
+// starts, de-duplicated) is overwritten with ff and with 00, and each result is decoded under the sample's own format,
+// plain and forced.
 var (
 	c06FieldOnce  sync.Once
 	c06FieldCases []c06Case
@@ -385,9 +385,9 @@ func c06FieldCasesGet() []c06Case {
 						continue
 					}
 					n++
-					c06FieldCases = append(c06FieldCases, c06Case{Seed: it, Mut: mutation{Kind: "byte", A: off, B: 0xff}, Format: f, Force: n%4 == 0})
-					if n%2 == 0 {
-						c06FieldCases = append(c06FieldCases, c06Case{Seed: it, Mut: mutation{Kind: "byte", A: off, B: 0x00}, Format: f, Force: n%8 == 0})
+					for _, b := range []int{0xff, 0x00} {
+						c06FieldCases = append(c06FieldCases, c06Case{Seed: it, Mut: mutation{Kind: "byte", A: off, B: b}, Format: f})
+						c06FieldCases = append(c06FieldCases, c06Case{Seed: it, Mut: mutation{Kind: "byte", A: off, B: b}, Format: f, Force: true})
 					}
 				}
 			}
